@@ -339,10 +339,18 @@ def main():
 
     f32 = spec.get("f32", False)
     rtol = spec.get("rtol", 1e-9)
+    phase = {"coq_theorems_s": round(time.time() - t_start, 1)}
+    t1 = time.time()
     binary, hook = build_harness(f32=f32)
+    phase["harness_build_s"] = round(time.time() - t1, 1)
     report["hook_available"] = hook
+    t1 = time.time()
     rust = run_harness(binary, cases, workdir)
+    phase["harness_run_s"] = round(time.time() - t1, 1)
+    t1 = time.time()
     model = run_model(cases, workdir)
+    phase["model_run_s"] = round(time.time() - t1, 1)
+    print("phases:", phase)
 
     # 3. compare
     findings = load_known_findings()
